@@ -135,5 +135,6 @@ PendingOnlyAdmitted == \A c \in pending : cstate[c] = "admitted"
 \* schedule generator: one REPLAY line per complete schedule, with the outcome the property requires
 Quiescent == /\ ndisc = MaxDisc /\ \A c \in Conns : cstate[c] \in {"registered", "gone"}
 Emit == Quiescent => PrintT(<<"REPLAY", ToJson(
-          [word |-> word, served |-> [c \in Conns |-> cstate[c] = "registered"], revoked |-> revoked])>>)
+          [word |-> word, served |-> [c \in Conns |-> cstate[c] = "registered"], revoked |-> revoked,
+           active |-> active])>>)
 =============================================================================
